@@ -62,6 +62,7 @@ type c09Gen struct {
 	stages  []c09Stage
 	uniq    int
 	emptyUsing bool // also write empty using () blocks on calls
+	single  bool // bias collection literals towards one element per level (nested single-element forms)
 	exotic  bool // use the literal forms that are recorded findings (invalid UTF-8 via \x, threads fractions)
 }
 
@@ -139,8 +140,21 @@ func (g *c09Gen) keyLit(i int) string {
 	return `"` + hx.Pick(g.r, ks) + strconv.Itoa(i) + `"`
 }
 
+// count picks the number of elements of a collection level: uniform below n,
+// or, when nested single-element forms are wanted, mostly exactly one.
+func (g *c09Gen) count(n int) int {
+	if g.single && g.r.Intn(3) != 0 {
+		return 1
+	}
+	return g.r.Intn(n)
+}
+
 func (g *c09Gen) jsonVal(depth int) {
-	switch g.r.Intn(8) {
+	k := g.r.Intn(8)
+	if g.single && depth > 0 && g.r.Bool() {
+		k = 5 + g.r.Intn(2) // a collection
+	}
+	switch k {
 	case 0:
 		g.t(g.intLit())
 	case 1:
@@ -157,7 +171,7 @@ func (g *c09Gen) jsonVal(depth int) {
 			return
 		}
 		g.t("[")
-		n := g.r.Intn(3)
+		n := g.count(3)
 		for i := 0; i < n; i++ {
 			g.toks = append(g.toks, c09Tok{elem: true, s: ""}) // marker replaced below
 			mark := len(g.toks) - 1
@@ -174,7 +188,7 @@ func (g *c09Gen) jsonVal(depth int) {
 			return
 		}
 		g.t("{")
-		n := g.r.Intn(3)
+		n := g.count(3)
 		for i := 0; i < n; i++ {
 			g.e(g.keyLit(i))
 			g.t(":")
@@ -205,14 +219,14 @@ func (g *c09Gen) elemVal(t c09Ty, depth int) {
 
 // val appends a literal of type t.
 func (g *c09Gen) val(t c09Ty, depth int) {
-	if g.r.Intn(12) == 0 {
+	if g.r.Intn(12) == 0 && !(g.single && (t.arr > 0 || t.mapDim > 0)) {
 		g.t("null")
 		return
 	}
 	if t.arr > 0 {
 		inner := t
 		inner.arr--
-		n := g.r.Intn(4)
+		n := g.count(4)
 		if depth <= 0 {
 			n = 0
 		}
@@ -232,7 +246,7 @@ func (g *c09Gen) val(t c09Ty, depth int) {
 	}
 	if t.mapDim > 0 {
 		inner := c09Ty{base: t.base, arr: t.mapDim - 1, strct: t.strct}
-		n := g.r.Intn(3)
+		n := g.count(3)
 		if depth <= 0 {
 			n = 0
 		}
@@ -284,6 +298,9 @@ func (g *c09Gen) val(t c09Ty, depth int) {
 		}
 		g.t("{")
 		n := 1 + g.r.Intn(2)
+		if g.single && g.r.Bool() {
+			n = 1
+		}
 		for i := 0; i < n; i++ {
 			g.e(g.keyLit(i))
 			g.t(":")
@@ -818,6 +835,65 @@ func (g *c09Gen) valNonNull(t c09Ty, depth int) {
 			continue
 		}
 		return
+	}
+}
+
+// deepTy is a type with several collection levels: T[]^a, map<T[]^k>[]^a.
+func (g *c09Gen) deepTy() c09Ty {
+	t := c09Ty{base: hx.Pick(g.r, []string{"int", "string", "map", "float", "bool", "int", "file"})}
+	if len(g.snames) > 0 && g.r.Intn(4) == 0 {
+		t.base = hx.Pick(g.r, g.snames)
+		t.strct = true
+	}
+	t.arr = g.r.Intn(4)
+	if t.base != "map" && g.r.Intn(3) == 0 {
+		t.mapDim = 1 + g.r.Intn(3)
+	}
+	if t.arr == 0 && t.mapDim == 0 && t.base != "map" {
+		t.arr = 2
+	}
+	return t
+}
+
+// literalProgram appends a small program whose bindings are deeply nested
+// collection literals (arrays in arrays in maps ..., many levels with exactly
+// one element): either a top-level call of a stage, or a call in a pipeline.
+func (g *c09Gen) literalProgram() {
+	g.structs = map[string][]c09Param{}
+	g.single = true
+	if g.r.Intn(3) == 0 {
+		g.declStruct()
+	}
+	st := c09Stage{name: strings.ToUpper(g.id("Stage_"))}
+	ni := 1 + g.r.Intn(3)
+	for i := 0; i < ni; i++ {
+		st.ins = append(st.ins, c09Param{g.id("in"), g.deepTy()})
+	}
+	g.e("stage")
+	g.t(st.name, "(")
+	g.params("in", st.ins, false)
+	g.e("src")
+	g.t("py", `"stages/lit"`, ",")
+	g.cl(")")
+	inPipe := g.r.Bool()
+	if inPipe {
+		g.e("pipeline")
+		g.t("P", "(", ")", "{")
+	}
+	g.e("call")
+	g.t(st.name, "(")
+	for _, in := range st.ins {
+		g.e(in.name)
+		g.t("=")
+		g.val(in.ty, 5)
+		g.t(",")
+	}
+	g.cl(")")
+	if inPipe {
+		g.e("return")
+		g.t("(")
+		g.cl(")")
+		g.cl("}")
 	}
 }
 
